@@ -269,6 +269,22 @@ def _junk(st: S.Stream) -> Dict[str, Any]:
     return j
 
 
+def _bias_memory(st: S.Stream, case: Dict[str, Any]) -> None:
+    """Boundary-biased (mostly zero) data in internal memory and at the pointer registers' targets, so that
+    zero/carry results -- where a stale flag accumulator or scratch value becomes visible -- are common.
+    Inserted *before* the code/BP/PX/PY overrides (later entries win on both cores)."""
+    extra: List[List[int]] = []
+    vals = (0x00, 0x00, 0x00, 0x00, 0x01, 0xFF, 0x99, 0x80)
+    for a in range(0x00, 0xEC):
+        extra.append([S.IMEM + a, st.choice(vals)])
+    for r in ("X", "Y", "U", "S"):
+        p = case["regs"][r]
+        for d in range(-4, 8):
+            extra.append([(p + d) & 0xFFFFF, st.choice(vals)])
+    code_addrs = {a for a, _ in case["mem"]}
+    case["mem"] = [x for x in extra if x[0] not in code_addrs] + case["mem"]
+
+
 def gen_probe_case(pool: Pool, seed: int, shard: int, j: int, thorough: bool, nshards: int = 16) -> Dict[str, Any]:
     st = S.Stream(seed, shard, j, 0xC07A)
     nr = 1 if st.chance(7, 10) else (2 if st.chance(2, 3) else 3)
@@ -282,7 +298,10 @@ def gen_probe_case(pool: Pool, seed: int, shard: int, j: int, thorough: bool, ns
             e = pool.all[(shard + nshards * j) % len(pool.all)]
         else:
             e = st.choice(pool.all)
-        probe, plabels = S.gen_state(st, e.code, e.mn, imax=imax)
+        probe, plabels = S.gen_state(st, e.code, e.mn, imax=st.choice((2, 4, imax)))
+        if st.chance(1, 3):
+            _bias_memory(st, probe)
+            plabels.append("mem:boundary-biased")
         n = st.choice((4, 6, 10, 16, 24, 40))
         prog = build_program(st, pool, n, imax=6)
         want = probe["regs"]["PC"] if st.chance(1, 2) else None
@@ -292,8 +311,9 @@ def gen_probe_case(pool: Pool, seed: int, shard: int, j: int, thorough: bool, ns
         rounds.append({"hist": hist, "junk": _junk(st), "probe": probe})
         shapes += prog.shape
         if r == nr - 1:
-            labels += [x for x in plabels if x.startswith("ptr:")]
+            labels += [x for x in plabels if x.startswith(("ptr:", "mem:"))]
     return {"kind": "probe", "rounds": rounds, "shape": jhash(shapes, 8), "overlap": overlap_any,
+            "ref_first": st.chance(1, 2),
             "labels": labels + (["history-overlaps-probe-pc"] if overlap_any else [])}
 
 
